@@ -2,6 +2,7 @@ package world
 
 import (
 	"fmt"
+	"runtime"
 	"runtime/debug"
 	"strings"
 	"time"
@@ -263,6 +264,9 @@ type EnvB struct {
 	// Simulate: every transaction is first run through the node's gas-estimation entry point (BaseApp.Simulate, which
 	// executes the handlers on a throw-away branch of the check state), as a node serving client queries does.
 	Simulate bool
+	// GCBeforeTx: the garbage collector runs (twice, which also empties every sync.Pool) before each transaction - the
+	// runtime decides when it runs on a real node.
+	GCBeforeTx bool
 	// Obs is the observation log used by the determinism check: per transaction code/gas/events/data, per block
 	// EndBlock events, AppHash and BeginBlock events, in order.
 	Obs []string
@@ -405,6 +409,10 @@ func (e *EnvB) DeliverSigned(msgs []sdk.Msg, signers []Acct) TxResult {
 	bz, err := e.SignTx(msgs, signers, TxGas)
 	if err != nil {
 		return TxResult{Err: err, Stage: "sign", Code: 1}
+	}
+	if e.GCBeforeTx {
+		runtime.GC()
+		runtime.GC()
 	}
 	if e.Simulate {
 		func() {
